@@ -40,7 +40,7 @@ def cases(ctx):
             f = [0] * n
             f[i] = f[j] = 1
             yield from one(f, 0, "2bit", legacy=(i % 16 == 0 and j % 5 == 0))
-    for k in range(ctx.n(15000, 500000)):
+    for k in range(ctx.n(15000, 150000)):
         n = rng.choice([56, 112])
         f = spec.background(rng, n, "rand")
         yield from one(f, k % 2, "random", legacy=(k % 10 == 0))
@@ -54,7 +54,7 @@ def cases(ctx):
     yield from one([0] * 56, 0, "zero")
     yield from one([1] * 112, 0, "ones")
     # --- the property itself on the real code: parity closure and error detection
-    for k in range(ctx.n(300, 5000)):
+    for k in range(ctx.n(300, 600)):
         n = rng.choice([56, 112])
         d = spec.background(rng, n - 24, "rand")
         junk = rng.getrandbits(24)
@@ -83,7 +83,7 @@ def cases(ctx):
             yield dict(op="crc %s 0" % bad, real=(C, [bad]), pred=["pred_nonzero"], tag="weight%d" % w)
     # the demodulator's acceptance test for DF17: valid frames pass, every single-bit corruption of the parity field
     # and random data-bit corruptions are refused
-    for k in range(ctx.n(120, 2000)):
+    for k in range(ctx.n(120, 600)):
         d = spec.background(rng, 88, "rand")
         spec.put(d, 0, 5, 17)
         p = spec.parity_of_data(d)
